@@ -102,6 +102,28 @@ func checkC12(c *Ctx) {
 	c12DerivedCache(c, ri, accs)
 	c12OrderPaired(c, ri, accs)
 	c12WindowOrdered(c)
+	c12ReplaceOneSection(c, ri, accs)
+	// a registry mutex left locked on some exit (an early return inside an explicit Lock … Unlock) wedges the registry
+	{
+		var fns []*ssa.Function
+		for _, f := range c.P.LibFns {
+			if !clientSide(c, f) {
+				fns = append(fns, f)
+			}
+		}
+		seenLeak := map[string]bool{}
+		for _, l := range append(lockLeaks(c, fns), mayLeaks(c, fns)...) {
+			k := l.key + " in " + fname(l.fn)
+			if seenLeak[k] {
+				continue
+			}
+			seenLeak[k] = true
+			c.R.Violate("R-lock-balanced", k, c.Pos(l.at.Pos()), sprintf("%s acquires %s (at %s) and can return (near %s) without releasing it: every later registration, listing and call that needs the lock blocks forever", fname(l.fn), l.key, c.Pos(l.at.Pos()), ipos(c, l.ret)))
+		}
+		if len(seenLeak) == 0 {
+			c.R.Hold("R-lock-balanced", "every acquisition is released on all paths", "", sprintf("%d server-side functions examined", len(fns)))
+		}
+	}
 	// a list built in a recycled buffer is overwritten by the next request before it is encoded
 	poolAliasRule(c, "R-answer-owned")
 	poolResetRule(c, "R-pool-reset")
@@ -1424,4 +1446,76 @@ func c12WindowOrdered(c *Ctx) {
 		c.R.Break("R-window-ordered: no list producer ranging over a map found")
 	}
 	c.R.Hold("R-window-ordered", "lists built by ranging over a map are answered whole", "", sprintf("unordered producers: %v; no positional window is cut out of their results", names))
+}
+
+// ---------------------------------------------------------------- R-replace-one-section
+// Replacing a registered entry is one critical section of the registry (the store of the new record over the old one).
+// A function that first calls something that DELETES from a registry map and then something that INSERTS into the same
+// map — each correctly locked on its own — leaves a window in which a name that the application never unregistered is
+// absent: a concurrent call of that tool is answered "not found", a concurrent listing omits it.
+func c12ReplaceOneSection(c *Ctx, ri *registryInfo, accs []Access) {
+	deleters, inserters := map[*ssa.Function]string{}, map[*ssa.Function]string{}
+	for _, a := range accs {
+		if !ri.maps[a.Field] || a.Init || a.Local {
+			continue
+		}
+		switch a.Kind {
+		case "map-delete":
+			deleters[a.Fn] = a.Field
+		case "map-update":
+			inserters[a.Fn] = a.Field
+		}
+	}
+	reachField := func(call ssa.CallInstruction, set map[*ssa.Function]string) string {
+		for _, cal := range ir.Callees(c.G, call) {
+			if !c.P.IsLib(cal) {
+				continue
+			}
+			for f := range c.ReachSync(cal) {
+				if k := set[f]; k != "" {
+					return k
+				}
+			}
+		}
+		return ""
+	}
+	n := 0
+	for _, fn := range c.P.LibFns {
+		if clientSide(c, fn) || deleters[fn] != "" || inserters[fn] != "" {
+			continue // (a function that touches the map itself is judged by R-snapshot / R-atomic-replace)
+		}
+		type site struct {
+			in    ssa.Instruction
+			field string
+		}
+		var dels, inss []site
+		ir.EachInstr(fn, func(_ *ssa.BasicBlock, _ int, in ssa.Instruction) {
+			call, ok := in.(*ssa.Call)
+			if !ok {
+				return
+			}
+			if k := reachField(call, deleters); k != "" {
+				dels = append(dels, site{in, k})
+			}
+			if k := reachField(call, inserters); k != "" {
+				inss = append(inss, site{in, k})
+			}
+		})
+		if len(inss) == 0 {
+			continue
+		}
+		n++
+		for _, d := range dels {
+			for _, i := range inss {
+				if d.in != i.in && d.field == i.field && flow.Reaches(d.in, i.in) {
+					c.R.Violate("R-replace-one-section", sprintf("%s replaced in two steps by %s", d.field, fname(fn)), c.Pos(i.in.Pos()),
+						sprintf("%s removes an entry from %s (at %s) and then inserts into it in a separate critical section: between the two a name that was never unregistered is absent — a concurrent call is answered `not found`, a concurrent listing shows a set the registry never held from the registrant's point of view", fname(fn), d.field, c.Pos(d.in.Pos())))
+				}
+			}
+		}
+	}
+	c.R.Hold("R-replace-one-section", "callers of the registration functions", "", sprintf("%d functions that call an inserting registry function examined; none removes from the same map first", n))
+	if n < 5 {
+		c.R.Break("R-replace-one-section: only %d callers of inserting registry functions found", n)
+	}
 }
